@@ -1269,5 +1269,5 @@ func (w *world) abort() {
 	}
 	w.cancel()
 	go w.root.Close()
-	waitNoLibGoroutines(3 * time.Second)
+	waitNoLibGoroutines(500 * time.Millisecond)
 }
